@@ -13,7 +13,7 @@
      body_read_chunked (stream_init data sc) buf maxb
                       = _body_read(read, buf, chunked=True, max_body_size=maxb) on a stream that delivers
                         [data] fragmented by the schedule [sc] (model/Stream.v). *)
-From Verif Require Import lib.Base lib.Str lib.PyIntHex model.Stream model.Body model.Chunked
+From Verif Require Import lib.Base lib.Str lib.PyIntHex model.Stream model.Body model.Chunked model.BodyLimits gen.Gen
      proofs.C05_scan proofs.C05_proofs.
 
 (* Exactness.  For every list of legal chunks, every legal last-chunk line, any
@@ -122,3 +122,26 @@ Example C05_nonvacuous_truncated :
   | _ => False
   end.
 Proof. vm_compute. exact I. Qed.
+
+(* the parsing error is answered 400 by the errors_map of the current source
+   (gen/Gen.v, regenerated from /repo on every run; request.py:_raise) *)
+Example C05_parse_error_is_400 :
+  BodyLimits.raise_status Gen.errors_map BodyLimits.cls_BodyParsingError BodyLimits.cls_RequestError
+  = Some 400%Z.
+Proof. reflexivity. Qed.
+
+(* Outside the legal grammar, for the record (no theorem above claims anything
+   about these; the correspondence corpus checks that the code agrees):
+   int(..., 16) also accepts a sign, a 0x prefix, single underscores and
+   surrounding blanks, and a NEGATIVE size behaves as an empty chunk. *)
+Example C05_observed_lax_size_lines :
+  (* "+3 CRLF abc CRLF 0 CRLF" *)
+  (match body_read_chunked (stream_init [43; 51; 13; 10; 97; 98; 99; 13; 10; 48; 13; 10]%N []) 8 None with
+   | BDone b _ _ => b = [97; 98; 99]%N | _ => False end)
+  /\ (* "0x_3 CRLF abc CRLF 0 CRLF" *)
+  (match body_read_chunked (stream_init [48; 120; 95; 51; 13; 10; 97; 98; 99; 13; 10; 48; 13; 10]%N []) 8 None with
+   | BDone b _ _ => b = [97; 98; 99]%N | _ => False end)
+  /\ (* "-3 CRLF CRLF 0 CRLF" *)
+  (match body_read_chunked (stream_init [45; 51; 13; 10; 13; 10; 48; 13; 10]%N []) 8 None with
+   | BDone b _ _ => b = [] | _ => False end).
+Proof. vm_compute. repeat split. Qed.
